@@ -19,7 +19,7 @@ LEVEL_TEXT = (
     "on the runtime returned for either mode; run ticks an interval of 1 s and each tick advances the same atomic that "
     "timestamp() loads. Not decided: SO_REUSEPORT behaviour, real-time accuracy, response equality across runtimes."
 )
-ASSUMPTIONS = ["tokio interval_at(start, d).tick() fires every d", "clap assigns each parsed option to the struct field of the same name"]
+ASSUMPTIONS = ["tokio interval_at(start, d).tick() fires once per elapsed period d when the missed-tick behaviour is the default Burst (late ticks are caught up), and drops or shifts ticks under Skip/Delay", "clap assigns each parsed option to the struct field of the same name"]
 
 RB = "memcrs::memcache_server::runtime_builder::"
 SCFG = "memcrs::memcache_server::memc_tcp::MemcacheServerConfig::new"
@@ -261,6 +261,15 @@ def r4(ctx):
             if not chunks and cur == [] and not p.cut:
                 good = False
             tick_ok = good if tick_ok is None else (tick_ok and good)
+    # no tick may be dropped: tokio's default MissedTickBehavior::Burst catches up after a late wake-up; Skip/Delay lose seconds
+    mtb = None
+    for p in paths:
+        for e in p.events:
+            if e.kind == "call" and e.name.endswith("Interval::set_missed_tick_behavior"):
+                arg = e.args[1] if len(e.args) > 1 else None
+                v = arg.variant if isinstance(arg, Struct) else short(arg, 30)
+                mtb = v
+    rep.check(mtb in (None, "Burst"), "timer:no-dropped-ticks", "interval keeps the default catch-up behaviour (Burst)", "the clock's interval is set to MissedTickBehavior::%s: seconds that pass while the tick is late (workers busy in multi-thread mode) are dropped, the server clock lags real time and items outlive their TTL in that configuration" % mtb, rb.loc())
     rep.check(period_ok is True, "timer:1s-interval", "interval_at(_, 1 s)", "the clock interval is not 1 second", rb.loc())
     rep.check(tick_ok is True and bool(rb.has_cycle()), "timer:tick-then-add_second", "loop { tick().await; seconds += 1 }", "the timer loop does not advance the clock by exactly one per tick", rb.loc())
     ab = f.one("<memcrs::server::timer::SystemTimer as memcrs::server::timer::SetableTimer>::add_second")
